@@ -4,3 +4,4 @@ import GV.Model.Utf8
 import GV.Spec.Utf8
 import GV.Props.C14
 import GV.Driver.C14
+import GV.Driver.Loop
